@@ -45,6 +45,8 @@ func (r Rule) String() string {
 		return fmt.Sprintf("byz-future-votes(h%d r%d->r%d)", r.h(), r.Round, r.Round+1)
 	case "byz-fresh":
 		return fmt.Sprintf("byz-fresh-proposal(h%d r%d)", r.h(), r.Round)
+	case "byz-mutate":
+		return fmt.Sprintf("byz-proposes-mutant(h%d r%d,%s)", r.h(), r.Round, r.Alt)
 	}
 	return r.Kind
 }
@@ -68,6 +70,7 @@ type Scenario struct {
 	PartSize int     `json:"part_size,omitempty"`
 	Mode     string  `json:"mode,omitempty"`
 	Extra    string  `json:"extra,omitempty"`
+	Inject   *InjectSpec `json:"inject,omitempty"`
 }
 
 func (sc *Scenario) partSize() int {
@@ -285,6 +288,10 @@ func (nt *Net) route(n *Node, e *Emitted) {
 	for _, i := range nt.byzRules(e) {
 		r := nt.Sc.Rules[i]
 		switch r.Kind {
+		case "byz-mutate":
+			if nt.routeMutant(n, e, i, r) {
+				handled = true
+			}
 		case "byz-silent":
 			if r.Msg == msgClass(e.Kind) {
 				nt.fired[i]++
